@@ -185,3 +185,37 @@ package processorqueue
 //@   modifies mapof(p.requestsWatcher.requests), mapof(p.requestsWatcher.requestsExpireAt), opof(p.requestsWatcher.requestCount), gEnqStamp, now
 //@   ensures[allowed-or-blocked] result1 == nil && (result0.Name == "allowed" || result0.Name == "blocked")
 //@   ensures[allowed-iff-verdict] result0.Name == "allowed" <==> canProcess
+
+// ---------------------------------------------------------------- construction: the processor works with its own configured parameters
+// the value of a configured processor parameter (trusted observers; the extraction helpers live in processors/utils)
+//@ ghost func pStr(m map[string]streamtypes.ProcessorParam, name string) string
+//@ ghost func pInt64(m map[string]streamtypes.ProcessorParam, name string) int64
+//@ ghost func pSeconds(m map[string]streamtypes.ProcessorParam, name string) int64
+//@ extern utils.ExtractStrParam
+//@   params metaData, paramName, out
+//@   modifies *out
+//@   ensures result == nil ==> *out == pStr(metaData, paramName)
+//@ extern utils.ExtractInt64Param
+//@   params metaData, paramName, out
+//@   modifies *out
+//@   ensures result == nil ==> *out == pInt64(metaData, paramName)
+//@ extern utils.ExtractDurationInSecParam
+//@   params metaData, paramName, out
+//@   modifies *out
+//@   ensures result == nil ==> *out == pSeconds(metaData, paramName) * 1000000000
+//@ extern utils.ExtractMapOfInt64Param
+//@   params metaData, paramName, out
+//@   modifies mapof(out)
+//@ iface SharedStateI.Set
+//@   modifies now
+//@ extern queueProcessor).validateProcessingTimeoutIsGreaterTheTTL
+//@   modifies now
+
+//@ func (*queueProcessor).init
+//@   prop C06
+//@   mode seq
+//@   requires p != nil && p.metaData != nil && p.groups != nil
+//@   modifies p.quotaID, p.groupByHeader, p.maxQueueSize, p.maxRedisQueueSize, p.queueTTL, p.logger, mapof(p.groups), now
+//@   ensures[queue-size-is-the-configured-one] result == nil ==> p.maxQueueSize == pInt64(p.metaData.Parameters, "queue_size")
+//@   ensures[ttl-is-the-configured-one] result == nil ==> p.queueTTL == pSeconds(p.metaData.Parameters, "ttl_seconds") * 1000000000
+//@   ensures[own-quota-and-priority-header] result == nil ==> p.quotaID == pStr(p.metaData.Parameters, "quota_id") && p.groupByHeader == pStr(p.metaData.Parameters, "priority_group_by_header") && p.maxRedisQueueSize == pInt64(p.metaData.Parameters, "redis_queue_size")
